@@ -10,6 +10,8 @@
 EXTENDS Model, A_hist, L_hist
 
 NoFilt == <<>>
+F17 == << <<17>> >>
+F4_5 == << <<4, 5>> >>
 One == {1}
 TickSet == {9000, 11000}
 ASSUME AlphaLit = Alpha
